@@ -134,6 +134,8 @@ def coord_in(vals, kind, name):
         return [float(x) for x in vals]
     if kind == "dataarray":
         return xr.DataArray(vals, coords={name: vals}, dims=(name,), name=name)
+    if kind == "dataarray-unnamed":  # what a user builds by hand: the dimension is called freq/dir, the array itself has no name
+        return xr.DataArray(vals, coords={name: vals}, dims=(name,))
     return vals
 
 
@@ -1230,7 +1232,8 @@ def item_spread(it, acc):
         # both DataArrays over extra dims (full product), one of them a DataArray
         cols, N = product_specs(["dm", "dspr"], M)
         for lay in ("case", "time_site"):
-            acc.run("spread-dataarray:cartwright", dict(kind="spread", func="cartwright", dir=d, under_90=u90, params=as_specs(cols, N, lay)))
+            acc.run("spread-dataarray:cartwright", dict(kind="spread", func="cartwright", dir=d, under_90=u90, params=as_specs(cols, N, lay),
+                                                         dir_type="ndarray" if lay == "case" else "dataarray-unnamed"))
         for dspr in M["dspr"]:
             acc.run("spread-dataarray:cartwright", dict(kind="spread", func="cartwright", dir=d, under_90=u90,
                                                          params={"dm": A(["case"], M["dm"]), "dspr": S(dspr)}), nontrivial=False)
@@ -1292,7 +1295,7 @@ def item_asym(it, acc):
     step = 3 if it["tier"] == "thorough" and len(d) <= 12 else 7
     for i in range(0, N, step):
         acc.run("spread-scalar:asymmetric", dict(kind="spread", func="asymmetric", dir=d, freq=f, freq_type=["ndarray", "list", "dataarray"][i % 3],
-                                                  dir_type=["dataarray", "ndarray", "list"][i % 3], params={n: S(v[i]) for n, v in cols.items()}), sample=(i == 0))
+                                                  dir_type=["dataarray", "ndarray", "list", "dataarray-unnamed"][i % 4], params={n: S(v[i]) for n, v in cols.items()}), sample=(i == 0))
 
 
 def shape_variants(M, f, tier, seed):
